@@ -259,6 +259,12 @@ class World:
             self.forms.append(["copy()", "v[:]", "v[list mask]", "v[Vector mask]"][k])
             self.vec[new[0]] = v
             return "Ok"
+        if act == "RawCopy":
+            import copy as _copy
+            src = self.obj(a["x"])
+            self.vec[new[0]] = _copy.copy(src) if self.pick(2) == 0 else _copy.deepcopy(src)
+            self.forms.append(["copy.copy(v)", "copy.deepcopy(v)"][self.pick(2)])
+            return "Ok"
         if act == "ConcatEmpty":
             src = self.obj(a["x"])
             self.vec[new[0]] = [lambda: src << [], lambda: src << Vector([]), lambda: src << ()][self.pick(3)]()
@@ -438,12 +444,14 @@ class World:
             else:
                 self.tab[pos[0]].cols()[pos[1]][i] = val
         except AliasError:
+            self._sharers_before = []
             return "Refused"
-        if a["res"] == "Refused":
-            # the spec refuses (storage shared); the write was performed: it must at least be local
-            for p, before_vals in getattr(self, "_sharers_before", []):
-                if not all(_same(x, y) for x, y in zip(list(p), before_vals)) or len(list(p)) != len(before_vals):
-                    raise Mismatch("leaked_write", {"a vector sharing the written storage changed": list(p)}, before_vals)
+        sharers, self._sharers_before = self._sharers_before, []        # (keep no strong reference to the sharers beyond this call)
+        # whoever shared the written storage still shows what it showed (C01 / C15: no leaked write)
+        for p, before_vals in sharers:
+            if not all(_same(x, y) for x, y in zip(list(p), before_vals)) or len(list(p)) != len(before_vals):
+                raise Mismatch("leaked_write", {"a vector sharing the written storage changed": list(p)}, before_vals)
+        del sharers
         return "Ok"
 
     def write_none(self, a):
@@ -555,7 +563,7 @@ def target_entity(w, a):
             ids |= set(w.cols[pos[0]]) | {pos[0]}
     elif act in ("SetAttr", "RenameColumn"):
         ids |= set(w.cols.get(a["x"], [])) | {a["x"]}
-    elif act in ("NewVec", "ShareVec", "Copy", "ConcatEmpty", "NewTable"):
+    elif act in ("NewVec", "ShareVec", "Copy", "ConcatEmpty", "NewTable", "RawCopy"):
         ids |= set(a["lv"]) - w.prev_live
     return ids
 
